@@ -384,7 +384,7 @@ def main(tier: str) -> int:
         "close, with the file cut to half its bytes); power-loss reordering below the system-call level is outside the model",
     ]
     ck.proof(extra_targets=["Run/C10.vo", "Run/C11.vo"])
-    n_rand = 7 if tier == "quick" else 36
+    n_rand = 6 if tier == "quick" else 36
     hs = fixed_histories() + [gen_history(ck.rng) for _ in range(n_rand)] + family_histories(ck.rng, tier)
     known = {f["id"]: f for f in known_for(PROP)}
     cert0 = "\n".join(f"{k}={v}" for k, v in DEFAULT_CERT)
@@ -418,10 +418,10 @@ def main(tier: str) -> int:
                 meta.append((hi, "crash", k))
             # (round 1) longer tails: a failing compile between the kill and the re-run; a second kill during the re-run
             u = ck.rng.random()
-            if u < 0.07:
+            if u < 0.05:
                 crash_jobs.append(job_of(h, [dict(h["last"], crash_at=k), failing, dict(h["last"])]))
                 meta.append((hi, "crash+failed-compile", k))
-            elif u < 0.17:
+            elif u < 0.12:
                 k2 = ck.rng.randint(1, n_mut)
                 crash_jobs.append(job_of(h, [dict(h["last"], crash_at=k), dict(h["last"], crash_at=k2), dict(h["last"])]))
                 meta.append((hi, "crash+crash", (k, k2)))
